@@ -1,5 +1,6 @@
 //! Kani harnesses for property C10 (front-end totality, leaf obligations).
 #![allow(unused, clippy::all)]
+extern crate alloc;
 mod extracted;
 use extracted::*;
 use zydeco_utils::span::{Cursor2, FileInfo};
@@ -70,3 +71,41 @@ mod chars {
 // String escapes (apply_string_escapes) and FileInfo::new iterate over `str` with symbolic contents: CBMC did not finish
 // at 2 symbolic ASCII bytes (measured: 240 s timeout), Verus has no `char_indices`. They are NOT under contract; the replay
 // binary evaluates their contracts dynamically on enumerated sources on every run (not a proof, listed under not_covered).
+
+#[cfg(kani)]
+mod render {
+    use super::*;
+    /// `fmt_expected` (rendering of LALRPOP's expected-token list), BOUNDED: lists of 0..=3 concrete entries. No panic
+    /// (in particular on the EMPTY list LALRPOP produces for a token in the accept state); empty list renders as "".
+    fn stub_format(_args: core::fmt::Arguments<'_>) -> String { String::from("x") }
+    fn check(n: usize) {
+        let all = [String::from("\"a\""), String::from("\"b\""), String::from("\"c\"")];
+        let out = fmt_expected(&all[..n]);
+        assert!((n == 0) == out.is_empty());
+        core::mem::forget(out);
+    }
+    #[kani::proof] #[kani::unwind(8)] fn fmt_expected_len0() { check(0) }
+    // `format!` dominates CBMC's cost (timeout at one entry); it is stubbed here, so these two decide panic-freedom of the
+    // separator arithmetic (`i < expected.len() - 1`) and non-emptiness only, not the rendered text
+    #[kani::proof] #[kani::unwind(8)] #[kani::stub(alloc::fmt::format, stub_format)] fn fmt_expected_len1() { check(1) }
+    #[kani::proof] #[kani::unwind(8)] #[kani::stub(alloc::fmt::format, stub_format)] fn fmt_expected_len3() { check(3) }
+}
+
+#[cfg(kani)]
+mod strings {
+    use super::*;
+    /// the `String` grammar action on a fixed family of StrLit tokens, BOUNDED (concrete tokens chosen to cover: empty, plain,
+    /// every escape class, an escape as the LAST character before the closing quote, a backslash pair at the end):
+    /// no panic, output length = interior length minus the number of escapes
+    fn check(tok: &str, want_len: usize) {
+        let out = string_action(tok);
+        assert!(out.len() == want_len);
+        core::mem::forget(out);
+    }
+    #[kani::proof] #[kani::unwind(12)] fn string_action_empty() { check("\"\"", 0) }
+    #[kani::proof] #[kani::unwind(12)] fn string_action_plain() { check("\"ab\"", 2) }
+    #[kani::proof] #[kani::unwind(12)] fn string_action_escaped_quote_last() { check("\"a\\\"\"", 2) }
+    #[kani::proof] #[kani::unwind(12)] fn string_action_only_escaped_quote() { check("\"\\\"\"", 1) }
+    #[kani::proof] #[kani::unwind(12)] fn string_action_backslash_pair_last() { check("\"a\\\\\"", 2) }
+    #[kani::proof] #[kani::unwind(12)] fn string_action_escapes() { check("\"\\n\\t\\q\"", 3) }
+}
